@@ -338,3 +338,15 @@ func (w *World) activeOracles() []Oracle {
 	}
 	return w.Oracles
 }
+
+// anteRejected: the tx never reached its message handler (wrong sequence, bad tx signature, fee).
+func anteRejected(r *TxResult) bool {
+	if r.Code == 0 || r.Res.Codespace != "sdk" {
+		return false
+	}
+	switch r.Code {
+	case 4, 5, 13, 32:
+		return true
+	}
+	return false
+}
